@@ -240,6 +240,10 @@ class FingerprintDatabase(object):
         name : str, optional
             Name of database
         """
+        if any(x not in self.fp_names_to_indices for x in fp_names):
+            raise ValueError(
+                "Not all provided fingerprint names are in database."
+            )
         try:
             indices, fp_names = zip(
                 *[
